@@ -185,8 +185,19 @@ std::vector<std::vector<double>> Import_Table(std::string filepath, std::vector<
 			data_aux.push_back(x);
 		inputfile.close();
 
-		unsigned int rows	 = Count_Lines(filepath) - ignored_initial_lines;
+		unsigned int lines = Count_Lines(filepath);
+		if(lines <= ignored_initial_lines || data_aux.empty())
+		{
+			std::cerr << "Error in libphysica::Import_Data(" << filepath << "): File contains no data." << std::endl;
+			std::exit(EXIT_FAILURE);
+		}
+		unsigned int rows	 = lines - ignored_initial_lines;
 		unsigned int columns = data_aux.size() / rows;
+		if(rows * columns != data_aux.size())
+		{
+			std::cerr << "Error in libphysica::Import_Data(" << filepath << "): The " << data_aux.size() << " entries do not form a table of " << rows << " rows." << std::endl;
+			std::exit(EXIT_FAILURE);
+		}
 		if(!dimensions.empty() && dimensions.size() != columns)
 		{
 			std::cerr << "Error in libphysica::Import_Data(): Column length and dimension length do not match." << std::endl;
